@@ -43,6 +43,25 @@ def worker_env(extra=None):
     return env
 
 
+# The host environment is a dimension of the workload like the logging mode: every fourth worker runs in the
+# POSIX locale with UTF-8 mode off (the default text encoding of open() / read_text() / the file system is
+# ASCII - cron jobs, minimal containers), every fourth in a time zone with daylight saving (given as a POSIX
+# TZ rule, so that no zone database is needed).  stdin/stdout keep UTF-8 (PYTHONIOENCODING): what a terminal can
+# show is not the library's business.  VERIF_HOSTENV=plain|clocale|dst forces one environment for all workers.
+HOST_ENVS = {
+    'plain': {},
+    'clocale': {'LC_ALL': 'C', 'LANG': 'C', 'LANGUAGE': 'C', 'PYTHONUTF8': '0', 'PYTHONCOERCECLOCALE': '0',
+                'PYTHONIOENCODING': 'utf-8'},
+    'dst': {'TZ': 'GMT0BST,M3.5.0/1,M10.5.0/2'},
+}
+
+
+def host_env(wi):
+    forced = os.environ.get('VERIF_HOSTENV')
+    name = forced if forced in HOST_ENVS else ('plain', 'plain', 'clocale', 'dst')[wi % 4]
+    return dict(HOST_ENVS[name], VERIF_HOSTENV_NAME=name)
+
+
 def ensure_deps():
     if not os.path.isdir(os.path.join(HERE, '.deps', 'icontract')):
         subprocess.run([os.path.join(HERE, 'setup.sh')], cwd=HERE, check=False)
@@ -57,7 +76,7 @@ def spawn_workers(prop, tier, seed, nw, timeout, replay=None, pyflags=(), env_ex
         if replay:
             cmd.append(replay)
         errf = open(os.path.join(tmpdir, 'w%d.err' % wi), 'w')
-        p = subprocess.Popen(cmd, cwd=HERE, env=worker_env(env_extra), stdout=errf, stderr=errf)
+        p = subprocess.Popen(cmd, cwd=HERE, env=worker_env(dict(host_env(wi), **(env_extra or {}))), stdout=errf, stderr=errf)
         procs.append((p, out, errf))
     results, problems = [], []
     deadline = time.time() + timeout
